@@ -235,103 +235,66 @@ Proof.
 Qed.
 
 (* ================================================================== A. break / continue / fallthrough *)
-Fixpoint has_direct_ft (b:block) : bool :=
-  match b with
-  | BNil => false
-  | BCons _ Fallthrough _ => true
-  | BCons _ _ r => has_direct_ft r
-  end.
+(* (T) the repaired analyzer stores the loop variable in casescope.switchcase_index *)
+Lemma gen_switchcase_fixed : gen_switchcase_index_is_loop_var = true.
+Proof. reflexivity. Qed.
 
-Fixpoint last_case_no_ft (cs:cases) : bool :=
-  match cs with
-  | CNil => true
-  | CCons b CNil => negb (has_direct_ft b)
-  | CCons _ r => last_case_no_ft r
-  end.
+Lemma recorded_case_id : forall c, recorded_case c = c.
+Proof. intro c. unfold recorded_case. rewrite gen_switchcase_fixed. reflexivity. Qed.
 
-(* the domain of the partial theorem: no switch without else and with >= 2 cases has a fallthrough
-   directly in its last case block *)
-Fixpoint nolf_stmt (s:stmt) {struct s} : bool :=
-  match s with
-  | Func _ _ b | Do b | While b | Repeat b | For b | Defer b => nolf_block b
-  | If t e => nolf_block t && nolf_block e
-  | Switch cs els d => (els || Nat.ltb (ncases cs) 2 || last_case_no_ft cs) && nolf_cases cs && nolf_block d
-  | _ => true
-  end
-with nolf_block (b:block) {struct b} : bool :=
-  match b with BNil => true | BCons _ s r => nolf_stmt s && nolf_block r end
-with nolf_cases (cs:cases) {struct cs} : bool :=
-  match cs with CNil => true | CCons b r => nolf_block b && nolf_cases r end.
-
-Definition block_rel (ch:list fscope) (ftok:bool) (b:block) : Prop :=
+Definition block_rel (ch:list fscope) (ftok:bool) : Prop :=
   match ch with
-  | {| fcase := Some (c', n, els) |} :: _ =>
-    ((Nat.ltb c' n || els) = true -> ftok = true) \/ has_direct_ft b = false
+  | {| fcase := Some (c', n, els) |} :: _ => (Nat.ltb c' n || els) = true -> ftok = true
   | _ => True
   end.
 
 Lemma loop_found_plain : forall s ch, fl s = false -> ff s = false -> loop_found (s :: ch) = loop_found ch.
 Proof. intros s ch H1 H2. unfold loop_found. simpl. rewrite H1, H2. reflexivity. Qed.
 
-Lemma block_rel_tail : forall ch ftok id s r, s <> Fallthrough -> block_rel ch ftok (BCons id s r) -> block_rel ch ftok r.
-Proof.
-  intros ch ftok id s r Hs H. unfold block_rel in *.
-  destruct ch as [|[l f [[[c' n] els]|]] ch']; auto.
-  destruct H as [H|H]; [left; exact H|right].
-  destruct s; simpl in H; try exact H. exfalso. apply Hs. reflexivity.
-Qed.
-
-Lemma block_rel_plain : forall ch ftok b, block_rel (plain_scope :: ch) ftok b.
+Lemma block_rel_plain : forall ch ftok, block_rel (plain_scope :: ch) ftok.
 Proof. intros. exact I. Qed.
 
 Lemma flow_sound :
-  (forall s, forall ch id, nolf_stmt s = true -> aflow_stmt ch id s = [] -> rflow_stmt (loop_found ch) s = true) /\
-  (forall b, forall ch ftok, nolf_block b = true -> block_rel ch ftok b -> aflow_block ch false b = [] ->
+  (forall s, forall ch id, aflow_stmt ch id s = [] -> rflow_stmt (loop_found ch) s = true) /\
+  (forall b, forall ch ftok, block_rel ch ftok -> aflow_block ch false b = [] ->
       rflow_block (loop_found ch) ftok b = true) /\
-  (forall cs, forall ch n els c, nolf_cases cs = true -> (c + ncases cs = S n)%nat ->
-      (els = false -> (2 <= n)%nat -> last_case_no_ft cs = true) ->
+  (forall cs, forall ch n els c, (c + ncases cs = S n)%nat ->
       aflow_cases ch n els c cs = [] -> rflow_cases (loop_found ch) els cs = true).
 Proof.
   apply sbc_mutind; try (intros; reflexivity).
-  - (* Func *) intros f ps b IH ch id Hn H. cbn [aflow_stmt rflow_stmt nolf_stmt] in *.
-    exact (IH (plain_scope :: func_scope :: ch) false Hn (block_rel_plain _ _ _) H).
-  - (* Do *) intros b IH ch id Hn H. cbn [aflow_stmt rflow_stmt nolf_stmt] in *.
-    exact (IH (plain_scope :: ch) false Hn (block_rel_plain _ _ _) H).
-  - (* If *) intros t IHt e IHe ch id Hn H. cbn [aflow_stmt rflow_stmt nolf_stmt] in *.
-    apply andb_true_iff in Hn as [Hn1 Hn2]. apply app_nil_inv in H as [H1 H2].
-    apply andb_true_iff. split.
-    + exact (IHt (plain_scope :: ch) false Hn1 (block_rel_plain _ _ _) H1).
-    + exact (IHe (plain_scope :: ch) false Hn2 (block_rel_plain _ _ _) H2).
-  - (* While *) intros b IH ch id Hn H. cbn [aflow_stmt rflow_stmt nolf_stmt] in *.
-    exact (IH (plain_scope :: loop_scope :: ch) false Hn (block_rel_plain _ _ _) H).
-  - (* Repeat *) intros b IH ch id Hn H. cbn [aflow_stmt rflow_stmt nolf_stmt] in *.
-    exact (IH (plain_scope :: loop_scope :: ch) false Hn (block_rel_plain _ _ _) H).
-  - (* For *) intros b IH ch id Hn H. cbn [aflow_stmt rflow_stmt nolf_stmt] in *.
-    exact (IH (plain_scope :: loop_scope :: ch) false Hn (block_rel_plain _ _ _) H).
-  - (* Switch *) intros cs IHc els d IHd ch id Hn H. cbn [aflow_stmt rflow_stmt nolf_stmt] in *.
-    apply andb_true_iff in Hn as [Hn Hnd]. apply andb_true_iff in Hn as [Hl Hnc].
-    apply app_nil_inv in H as [H1 H2].
-    apply andb_true_iff. split.
-    + apply (IHc (plain_scope :: ch) (ncases cs) els 1%nat Hnc); [reflexivity | | exact H1].
-      intros He Hn2. rewrite He in Hl. simpl in Hl.
-      destruct (Nat.ltb (ncases cs) 2) eqn:E; [apply Nat.ltb_lt in E; lia | exact Hl].
-    + exact (IHd (plain_scope :: plain_scope :: ch) false Hnd (block_rel_plain _ _ _) H2).
-  - (* Break *) intros ch id _ H. cbn [aflow_stmt rflow_stmt] in *.
+  - (* Func *) intros f ps b IH ch id H. cbn [aflow_stmt rflow_stmt] in *.
+    exact (IH (plain_scope :: func_scope :: ch) false (block_rel_plain _ _) H).
+  - (* Do *) intros b IH ch id H. cbn [aflow_stmt rflow_stmt] in *.
+    exact (IH (plain_scope :: ch) false (block_rel_plain _ _) H).
+  - (* If *) intros t IHt e IHe ch id H. cbn [aflow_stmt rflow_stmt] in *.
+    apply app_nil_inv in H as [H1 H2]. apply andb_true_iff. split.
+    + exact (IHt (plain_scope :: ch) false (block_rel_plain _ _) H1).
+    + exact (IHe (plain_scope :: ch) false (block_rel_plain _ _) H2).
+  - (* While *) intros b IH ch id H. cbn [aflow_stmt rflow_stmt] in *.
+    exact (IH (plain_scope :: loop_scope :: ch) false (block_rel_plain _ _) H).
+  - (* Repeat *) intros b IH ch id H. cbn [aflow_stmt rflow_stmt] in *.
+    exact (IH (plain_scope :: loop_scope :: ch) false (block_rel_plain _ _) H).
+  - (* For *) intros b IH ch id H. cbn [aflow_stmt rflow_stmt] in *.
+    exact (IH (plain_scope :: loop_scope :: ch) false (block_rel_plain _ _) H).
+  - (* Switch *) intros cs IHc els d IHd ch id H. cbn [aflow_stmt rflow_stmt] in *.
+    apply app_nil_inv in H as [H1 H2]. apply andb_true_iff. split.
+    + exact (IHc (plain_scope :: ch) (ncases cs) els 1%nat eq_refl H1).
+    + exact (IHd (plain_scope :: plain_scope :: ch) false (block_rel_plain _ _) H2).
+  - (* Break *) intros ch id H. cbn [aflow_stmt rflow_stmt] in *.
     destruct (loop_found ch); [reflexivity | discriminate].
-  - (* Continue *) intros ch id _ H. cbn [aflow_stmt rflow_stmt] in *.
+  - (* Continue *) intros ch id H. cbn [aflow_stmt rflow_stmt] in *.
     destruct (loop_found ch); [reflexivity | discriminate].
-  - (* Fallthrough as a statement: only reached through blocks *) intros ch id _ H. cbn [aflow_stmt] in H.
+  - (* Fallthrough as a statement: only reached through blocks *) intros ch id H. cbn [aflow_stmt] in H.
     discriminate.
-  - (* Defer *) intros b IH ch id Hn H. cbn [aflow_stmt rflow_stmt nolf_stmt] in *.
-    exact (IH (plain_scope :: ch) false Hn (block_rel_plain _ _ _) H).
-  - (* BCons *) intros id s IHs r IHr ch ftok Hn Hrel H.
-    cbn [nolf_block] in Hn. apply andb_true_iff in Hn as [Hns Hnr].
-    assert (Hgen : s <> Fallthrough -> aflow_stmt ch id s ++ aflow_block ch false r = [] ->
+  - (* Defer *) intros b IH ch id H. cbn [aflow_stmt rflow_stmt] in *.
+    exact (IH (plain_scope :: ch) false (block_rel_plain _ _) H).
+  - (* BCons *) intros id s IHs r IHr ch ftok Hrel H.
+    assert (Hgen : aflow_stmt ch id s ++ aflow_block ch false r = [] ->
                    rflow_stmt (loop_found ch) s && rflow_block (loop_found ch) ftok r = true).
-    { intros Hs Happ. apply app_nil_inv in Happ as [H1 H2]. apply andb_true_iff. split.
-      - exact (IHs ch id Hns H1).
-      - exact (IHr ch ftok Hnr (block_rel_tail _ _ _ _ _ Hs Hrel) H2). }
-    destruct s; try (cbn [aflow_block rflow_block] in *; apply Hgen; [discriminate | exact H]).
+    { intros Happ. apply app_nil_inv in Happ as [H1 H2]. apply andb_true_iff. split.
+      - exact (IHs ch id H1).
+      - exact (IHr ch ftok Hrel H2). }
+    destruct s; try (cbn [aflow_block rflow_block] in *; apply Hgen; exact H).
     (* Fallthrough *)
     cbn [aflow_block rflow_block] in *. apply app_nil_inv in H as [H1 H2].
     unfold fall_errs in H1. unfold block_rel in Hrel.
@@ -339,25 +302,18 @@ Proof.
     cbn [negb andb] in H1.
     destruct (Nat.ltb c' n || els) eqn:E; [|discriminate]. cbn [app] in H1.
     destruct (is_bnil r) eqn:Er; [|discriminate].
-    destruct Hrel as [Hrel|Hrel]; [|discriminate]. rewrite (Hrel eq_refl). reflexivity.
-  - (* CCons *) intros b IHb r IHr ch n els c Hn Hc Hlast H.
-    cbn [nolf_cases aflow_cases rflow_cases ncases] in *.
-    apply andb_true_iff in Hn as [Hnb Hnr]. apply app_nil_inv in H as [H1 H2].
+    rewrite (Hrel eq_refl). reflexivity.
+  - (* CCons *) intros b IHb r IHr ch n els c Hc H.
+    cbn [aflow_cases rflow_cases ncases] in *.
+    apply app_nil_inv in H as [H1 H2].
     apply andb_true_iff. split.
     + rewrite <- (loop_found_plain (mkf false false (Some (recorded_case c, n, els))) ch eq_refl eq_refl).
-      apply (IHb _ _ Hnb); [|exact H1].
-      unfold block_rel. destruct r as [|b2 r2].
-      * (* last case *) cbn [ncases] in Hc.
-        destruct els; [left; intros; reflexivity|].
-        unfold recorded_case. destruct gen_switchcase_index_is_loop_var.
-        -- left. intro Hx. rewrite orb_false_r in Hx. apply Nat.ltb_lt in Hx. lia.
-        -- destruct (Nat.ltb 1 n) eqn:E.
-           ++ right. apply Nat.ltb_lt in E. specialize (Hlast eq_refl E). simpl in Hlast.
-              apply negb_true_iff in Hlast. exact Hlast.
-           ++ left. intro Hx. rewrite orb_false_r in Hx. congruence.
-      * left. intros; reflexivity.
-    + apply (IHr ch n els (S c) Hnr); [lia | | exact H2].
-      intros He Hn2. specialize (Hlast He Hn2). destruct r; [reflexivity | exact Hlast].
+      apply (IHb _ _); [|exact H1].
+      unfold block_rel. rewrite recorded_case_id. destruct r as [|b2 r2].
+      * (* last case: c = n *) cbn [ncases] in Hc. intro Hx. apply orb_true_iff in Hx as [Hx|Hx]; [|exact Hx].
+        apply Nat.ltb_lt in Hx. lia.
+      * intros; reflexivity.
+    + apply (IHr ch n els (S c)); [lia | exact H2].
 Qed.
 
 (* ---- completeness of the control-flow checks: rule-abiding placements are never rejected *)
@@ -428,10 +384,10 @@ Proof. intros p H. exact (proj1 (proj2 labels_sound) p [] [] false H). Qed.
 Theorem consts_sound_thm : forall p, off_consts p = [] -> rule_consts p = true.
 Proof. intros p H. exact (proj1 (proj2 consts_sound) p H). Qed.
 
-Theorem flow_sound_thm : forall p, nolf_block p = true -> off_flow p = [] -> rule_flow p = true.
+Theorem flow_sound_thm : forall p, off_flow p = [] -> rule_flow p = true.
 Proof.
-  intros p Hn H. unfold off_flow, rule_flow in *.
-  exact (proj1 (proj2 flow_sound) p [plain_scope; func_scope] false Hn I H).
+  intros p H. unfold off_flow, rule_flow in *.
+  exact (proj1 (proj2 flow_sound) p [plain_scope; func_scope] false I H).
 Qed.
 
 Theorem flow_complete_thm : forall p, rule_flow p = true -> off_flow p = [].
@@ -440,26 +396,19 @@ Proof.
   apply (proj1 (proj2 flow_complete) p [plain_scope; func_scope] false); [intro Hx; discriminate Hx | exact H].
 Qed.
 
-Theorem analyzer_sound_partial : forall p, nolf_block p = true -> analyzer_ok p = true -> rule_ok p = true.
+Theorem analyzer_sound : forall p, analyzer_ok p = true -> rule_ok p = true.
 Proof.
-  intros p Hn H. destruct (analyzer_ok_parts p H) as (H1 & H2 & H3 & H4). unfold rule_ok.
-  rewrite (flow_sound_thm p Hn H1), (names_sound_thm p H2), (labels_sound_thm p H3), (consts_sound_thm p H4).
+  intros p H. destruct (analyzer_ok_parts p H) as (H1 & H2 & H3 & H4). unfold rule_ok.
+  rewrite (flow_sound_thm p H1), (names_sound_thm p H2), (labels_sound_thm p H3), (consts_sound_thm p H4).
   reflexivity.
 Qed.
 
-Definition analyzer_sound_full : Prop := forall p, analyzer_ok p = true -> rule_ok p = true.
-
-(* switch sel() do case 1 then  case 2 then fallthrough end *)
+(* regression witness of the repaired hole: switch sel() do case 1 then  case 2 then fallthrough end *)
 Definition witness_last_ft : block :=
   BCons 1 (Switch (CCons BNil (CCons (BCons 2 Fallthrough BNil) CNil)) false BNil) BNil.
 
-Lemma witness_last_ft_accepted : analyzer_ok witness_last_ft = true /\ rule_ok witness_last_ft = false.
+Example witness_last_ft_rejected : offenders witness_last_ft = [(2%nat, KFall)] /\ rule_ok witness_last_ft = false.
 Proof. split; vm_compute; reflexivity. Qed.
-
-Theorem analyzer_sound_refuted : ~ analyzer_sound_full.
-Proof.
-  intro H. destruct witness_last_ft_accepted as [Ha Hr]. rewrite (H _ Ha) in Hr. discriminate.
-Qed.
 
 (* non-vacuity: a program with nested functions, loops, switch, labels satisfies the hypotheses and is accepted *)
 Example sound_example :
@@ -467,5 +416,5 @@ Example sound_example :
           (BCons 2 (Func 100 [2] (BCons 3 (While (BCons 4 (Use 2) (BCons 5 Break BNil))) BNil))
           (BCons 6 (Switch (CCons (BCons 7 (Call 100 1) (BCons 8 Fallthrough BNil)) (CCons (BCons 9 (Assign 1) BNil) CNil)) false BNil)
           (BCons 10 (Label 1) (BCons 11 (Goto 1) BNil)))) in
-  nolf_block p = true /\ analyzer_ok p = true /\ rule_ok p = true.
+  analyzer_ok p = true /\ rule_ok p = true.
 Proof. vm_compute. auto. Qed.
